@@ -381,10 +381,10 @@ pub fn axis<T: Flt>(src: &mut Src, n: usize, class: AxisClass, max_ratio_log2: O
     }
     // extreme absolute scales (exact power-of-two rescaling): code that compares against an absolute
     // epsilon, or against a fixed fraction of something, behaves differently there
-    if matches!(class, AxisClass::Uniform | AxisClass::Geometric | AxisClass::Clustered | AxisClass::Random | AxisClass::Jittered) && src.chance(1, 5) {
+    if matches!(class, AxisClass::Uniform | AxisClass::Geometric | AxisClass::Clustered | AxisClass::Random | AxisClass::Jittered) && x.iter().all(|v| v.is_finite()) && src.chance(1, 5) {
         let m = x.iter().fold(0f64, |a, v| a.max(v.abs())).max(f64::MIN_POSITIVE);
         let room = T::EWIN - 2;
-        let cur = m.log2().ceil() as i32;
+        let cur = (m.log2().ceil() as i32).clamp(-1100, 1100);
         // k moves the largest magnitude to about 2^-room or 2^room
         let k = if src.bool() { -room - cur } else { room - cur };
         let k = k.clamp(-2 * T::EWIN, 2 * T::EWIN);
